@@ -73,6 +73,12 @@ def rx_case(draw):
             p.pop('limits', None)
             p.pop('check', None)
     classes[0]['base'] = draw(st.sampled_from(['Module', 'Writable']))
+    if draw(st.integers(0, 2)) == 0:
+        # a custom accessible whose wire name is '_' + a predefined name (the client keeps the underscore then), also next to the real one
+        cs = draw(st.sampled_from(classes))
+        p = draw(st.sampled_from(cs['params']))
+        if not p.get('constant') and p.get('export', True) is not False:
+            p['export'] = draw(st.sampled_from(['_target', '_value', '_status', '_stop', '_pollinterval']))
     idents = []   # (module, wire, T)
     for i, cs in enumerate(classes):
         ip, _, _ = classgen.inherited(cs)
@@ -115,11 +121,17 @@ def rx_case(draw):
             level = draw(st.sampled_from(['node', 'module', 'param']))
             target = draw(st.sampled_from(idents)) if idents else ('m0', 'value', None)
             op = {'op': 'reg', 'id': nreg, 'level': level, 'mod': target[0], 'wire': target[1], 'cb': draw(st.sampled_from(['updateItem', 'updateEvent']))}
-            if draw(st.integers(0, 2)) == 0:
+            flavour = draw(st.integers(0, 5))
+            if flavour in (0, 1):
                 # the callback unregisters itself from inside its life-th call after registration:
                 # by raising UnregisterCallback or by calling unregister_callback
                 op['life'] = draw(st.integers(1, 3))
                 op['how'] = draw(st.sampled_from(['raise', 'call']))
+            elif flavour == 2:
+                op['first'] = True     # one-shot: raises UnregisterCallback on its very first call (maybe the immediate one)
+            if draw(st.integers(0, 3)) == 0:
+                nreg += 1
+                op['pair_id'] = nreg   # registered together with a second callback in one register_callback call
             ops.append(op)
             nreg += 1
         elif nreg:
@@ -160,40 +172,65 @@ def check_rx(ctx, case):
     def key_of(r):
         return None if r['level'] == 'node' else r['mod'] if r['level'] == 'module' else names.get(f'{r["mod"]}:{r["wire"]}', (r['mod'], r['wire']))
 
+    def make_callback(rid, level, mod, wireparam, cbname, life=None, how=None, first_call_unregisters=False):
+        r = {'level': level, 'mod': mod, 'wire': wireparam, 'cbname': cbname, 'calls': [], 'active': True,
+             'life': life, 'how': how, 'seen': 0, 'exp_seen': 0, 'registering': True, 'first': first_call_unregisters, 'ncalls': 0}
+        key = key_of(r)
+
+        def cbfunc(*args, r=r):
+            if r['cbname'] == 'updateItem':
+                m, p, item = args
+                r['calls'].append((m, p, rm.canon(item.value), item.timestamp, item.readerror))
+                if client.cache.get((m, p)) is not item:
+                    state['stale'] = (m, p)     # a callback looking into the cache would see the previous entry
+            else:
+                m, p, v, t, e = args
+                r['calls'].append((m, p, rm.canon(v), t, e))
+            r['ncalls'] += 1
+            if r['first'] and r['ncalls'] == 1:
+                # a one-shot callback: unregisters itself on its first call, also when that is the immediate call at registration
+                state['selfunreg'] = state.get('selfunreg', 0) + 1
+                raise fc.UnregisterCallback()
+            if r['life'] and not r['registering']:
+                r['seen'] += 1
+                if r['seen'] == r['life']:
+                    state['selfunreg'] = state.get('selfunreg', 0) + 1
+                    if r['how'] == 'raise':
+                        raise fc.UnregisterCallback()
+                    client.unregister_callback(r['key'], **{r['cbname']: r['func']})
+        cbfunc.__name__ = cbname
+        r['func'] = cbfunc
+        r['key'] = key
+        regs[rid] = r
+        # immediate calls with the cached state
+        init = []
+        for mp in order:
+            if key is None or key == mp[0] or key == mp:
+                init.append(mp + model[mp])
+        expected[rid] = init
+        if r['first']:
+            if init:
+                r['active'] = False      # raised during the immediate calls: never appended (the remaining immediate calls still happen)
+            else:
+                r['life'], r['how'] = 1, 'raise'    # first call will be the first message
+                r['first'] = False
+        return r, cbfunc
+
     def mk_reg(op):
         def hook():
-            r = {'level': op['level'], 'mod': op['mod'], 'wire': op['wire'], 'cbname': op['cb'], 'calls': [], 'active': True,
-                 'life': op.get('life'), 'how': op.get('how'), 'seen': 0, 'exp_seen': 0, 'registering': True}
-            key = key_of(r)
-
-            def cbfunc(*args, r=r):
-                if r['cbname'] == 'updateItem':
-                    m, p, item = args
-                    r['calls'].append((m, p, rm.canon(item.value), item.timestamp, item.readerror))
-                    if client.cache.get((m, p)) is not item:
-                        state['stale'] = (m, p)     # a callback looking into the cache would see the previous entry
-                else:
-                    m, p, v, t, e = args
-                    r['calls'].append((m, p, rm.canon(v), t, e))
-                if r['life'] and not r['registering']:
-                    r['seen'] += 1
-                    if r['seen'] == r['life']:
-                        state['selfunreg'] = state.get('selfunreg', 0) + 1
-                        if r['how'] == 'raise':
-                            raise fc.UnregisterCallback()
-                        client.unregister_callback(r['key'], **{r['cbname']: r['func']})
-            cbfunc.__name__ = op['cb']
-            r['func'] = cbfunc
-            r['key'] = key
-            regs[op['id']] = r
-            # immediate calls with the cached state
-            init = []
-            for mp in order:
-                if key is None or key == mp[0] or key == mp:
-                    init.append(mp + model[mp])
-            expected[op['id']] = init
-            client.register_callback(key, **{op['cb']: cbfunc})
-            r['registering'] = False
+            r, cbfunc = make_callback(op['id'], op['level'], op['mod'], op['wire'], op['cb'], op.get('life'), op.get('how'), op.get('first'))
+            funcs = {op['cb']: cbfunc}
+            rs = [r]
+            if op.get('pair_id') is not None:
+                # a second callback (of the other kind) registered in the same call, after the first
+                other = 'updateEvent' if op['cb'] == 'updateItem' else 'updateItem'
+                r2, cbfunc2 = make_callback(op['pair_id'], op['level'], op['mod'], op['wire'], other)
+                funcs[other] = cbfunc2
+                rs.append(r2)
+                state['pairreg'] = state.get('pairreg', 0) + 1
+            client.register_callback(r['key'], **funcs)
+            for x in rs:
+                x['registering'] = False
             if state['nmsg']:
                 state['midreg'] = True
         return hook
@@ -321,6 +358,8 @@ def check_rx(ctx, case):
         ctx.label(f'msg:{kind}')
     if state.get('selfunreg'):
         ctx.label('rx:callback-unregistered-itself')
+    if state.get('pairreg'):
+        ctx.label('rx:two-callbacks-in-one-registration')
     ctx.sample({'ops': case['ops'][:8], 'n_ops': len(case['ops'])}, every=97)
 
 
